@@ -389,6 +389,7 @@ struct RunCfg {
   int progress; // 0 nullptr, 1 recorder, 2 default argument
   int cb_yields;
   bool first_spawn_fails = false;
+  int inverted_by = 0; // > 0: start_value = end_value + inverted_by (an empty range given "backwards")
   bool threads_unknown = false; // num_threads == 0 and hardware_concurrency() == 0: the call may refuse (logic_error) or pick a count itself
   int offset_kind; // 0: 0, 1: 1, 2: 100, 3: near the type's maximum
   int slack; // distance of end_value from the type's maximum (offset_kind 3)
@@ -416,6 +417,12 @@ void run_typed(const RunCfg& c, const char* type_name) {
   }
   if (c.offset_kind == 4 && std::is_signed_v<IntT> && c.len > 0) VS_PROBE("negative_start_value");
   IntT end = (IntT)(start + (IntT)c.len);
+  if (c.inverted_by) {
+    // start_value above end_value: [start,end) holds no value at all (c.len is 0 in these runs)
+    end = start;
+    start = (IntT)(start + (IntT)c.inverted_by);
+    VS_PROBE("inverted_empty_range");
+  }
   // does the cursor wrap? each worker overshoots end_value by at most one claim
   uint64_t headroom = (uint64_t)Lim::max() - (uint64_t)end;
   uint64_t step = c.func == 0 ? 1 : (uint64_t)c.block;
@@ -506,6 +513,22 @@ void run_typed(const RunCfg& c, const char* type_name) {
   if (vpar::budget_exhausted()) vfail("no_termination", cfg_key, "the call did not finish within the step budget of the scheduler");
   if (failed()) throw AbortRun();
 
+  if (c.inverted_by) {
+    // an empty range: nothing may be visited. The blocks variants may also refuse it (end - start is not a
+    // multiple of the block size in unsigned arithmetic); parallel_range has no reason to.
+    if (!calls.empty()) {
+      fail("callback/outside_range", cfg_key + "/inverted_range", "start_value (" + std::to_string((int64_t)bits<IntT>(start)) + ") is above end_value (" + std::to_string((int64_t)bits<IntT>(end)) + "), the range is empty, but the callback was invoked " + std::to_string(calls.size()) + " time(s), first with " + std::to_string((int64_t)calls[0].value));
+    }
+    if (threw_logic && c.func == 0 && !c.threads_unknown) fail("unexpected_logic_error", cfg_key + "/inverted_range", "parallel_range threw logic_error('" + what + "') for an empty (inverted) range");
+    if (!threw_logic) {
+      if (c.func == 2 && !ret_set.empty()) fail("multi/wrong_result_set", cfg_key + "/inverted_range", "parallel_range_blocks_multi returned values for an empty range");
+      if (c.func != 2 && ret != end) fail("result/not_end_value", cfg_key + "/inverted_range", "an empty (inverted) range must return end_value, got " + std::to_string((int64_t)bits<IntT>(ret)));
+    }
+    if (vshim::g_flags.joinable_destroyed) fail("threads/not_joined", cfg_key, "a worker thread was still joinable when its std::thread was destroyed (std::terminate)");
+    for (int id = 1; id < vpar::task_count(); id++)
+      if (!vpar::is_finished(id)) fail("threads/running_after_return", cfg_key, "the call returned while worker thread " + std::to_string(id) + " was still running");
+    return;
+  }
   if (!c.block_divides) {
     if (!threw_logic) fail("blocks/non_divisor_accepted", cfg_key, "block_size does not divide the range but no logic_error was thrown");
     if (!calls.empty()) fail("blocks/non_divisor_ran", cfg_key, "callbacks ran although the block size was rejected");
@@ -645,6 +668,7 @@ static void run() {
   }
   c.progress = choose(3, "progress");
   c.cb_yields = choose(3, "cb_yields");
+  if (c.len == 0 && c.offset_kind != 3 && c.block_divides && choose(3, "range.inverted") == 2) c.inverted_by = 1 + (int)choose(5, "range.inverted.by");
   // one run in sixteen: the first worker thread cannot be created (later ones are not failed: with the
   // repository's code an exception out of the spawn loop destroys the joinable threads already started, which is
   // std::terminate - a limitation outside what C16 states, see DESIGN.md)
@@ -760,7 +784,7 @@ int main(int argc, char** argv) {
   e.components = {{"phosg Tools.hh: parallel_range, parallel_range_blocks, parallel_range_blocks_multi, their thread functions and parallel_range_default_progress_fn", "real, unmodified header from the repository working tree (macro retargeting in the harness TU)"},
       {"std::thread, std::atomic, usleep, now()", "stub: scheduler-controlled shims (engines/sim_par.cc, vsim/vpar.cc)"},
       {"callback and progress recorder", "harness"}};
-  e.expected_probes = {"two_workers_in_callback", "progress_timer_fired_while_workers_busy", "early_exit_skipped_values", "two_callbacks_returned_true", "end_value_near_type_max", "values_split_between_workers", "progress_fn_called", "negative_start_value", "second_call_in_process", "thread_creation_failure_reported", "hardware_concurrency_unknown_refused"};
+  e.expected_probes = {"two_workers_in_callback", "progress_timer_fired_while_workers_busy", "early_exit_skipped_values", "two_callbacks_returned_true", "end_value_near_type_max", "values_split_between_workers", "progress_fn_called", "negative_start_value", "second_call_in_process", "thread_creation_failure_reported", "hardware_concurrency_unknown_refused", "inverted_empty_range"};
   e.expected_faults = {"thread_creation_fails"};
   return driver_main(argc, argv, e);
 }
